@@ -18,6 +18,8 @@ import (
 	"golang.org/x/tools/go/ssa"
 )
 
+var memLimitBytes uint64 = 40 << 30
+
 var traceBranches = os.Getenv("SYMGO_TRACEBR") != ""
 
 func runtimeStack(buf []byte) int { return runtime.Stack(buf, false) }
@@ -884,7 +886,7 @@ func (p *Program) explore(harnesses []*ssa.Function, cfg *RunConfig) *RunStats {
 		}(w)
 	}
 	stopTick := make(chan struct{})
-	if cfg.Progress {
+	{
 		go func() {
 			t0 := time.Now()
 			for {
@@ -892,6 +894,17 @@ func (p *Program) explore(harnesses []*ssa.Function, cfg *RunConfig) *RunStats {
 				case <-stopTick:
 					return
 				case <-time.After(5 * time.Second):
+					var ms runtime.MemStats
+					runtime.ReadMemStats(&ms)
+					if ms.HeapAlloc > memLimitBytes {
+						fmt.Fprintf(os.Stderr, "symgo: heap %d MB exceeds the limit, stopping exploration (inconclusive)\n", ms.HeapAlloc>>20)
+						st.Truncated = true
+						q.stopped.Store(true)
+						q.cond.Broadcast()
+					}
+					if !cfg.Progress {
+						continue
+					}
 					q.mu.Lock()
 					ql, act := len(q.items), q.active
 					q.mu.Unlock()
